@@ -17,7 +17,9 @@ DEMOS=$(ls "$SRC"/*.go 2>/dev/null)
 place() {
   for f in $DEMOS; do
     b=$(basename "$f")
-    dest=$(grep -o "core[a-zA-Z0-9_/]*/$b" "$SRC/demo.txt" | head -1)
+    # explicit mapping line in demo.txt:  <file>  ->  <path in tree>
+    dest=$(grep -E "^[[:space:]]*$b[[:space:]]*-+>" "$SRC/demo.txt" | head -1 | sed -E 's/.*-+>[[:space:]]*//' | grep -oE "[A-Za-z0-9_./-]*/[A-Za-z0-9_./-]*\.go" | head -1 | sed -E 's#^/tmp/wt[^/]*/##')
+    [ -z "$dest" ] && dest=$(grep -o "core[a-zA-Z0-9_/]*/$b" "$SRC/demo.txt" | head -1)
     [ -z "$dest" ] && dest=$(grep -o "[a-zA-Z0-9_/]*$b" "$SRC/demo.txt" | grep / | head -1)
     [ -z "$dest" ] && dest="core/$b"
     dest=${dest#/tmp/wt-*/}
@@ -27,7 +29,7 @@ place() {
 PLACED=$(place)
 CMD=$(grep -o "go test [^\`]*" "$SRC/demo.txt" | head -1)
 [ -z "$CMD" ] && { echo "RESULT $ID: no demo command found in demo.txt"; exit 1; }
-CMD=$(echo "$CMD" | sed 's/[.)]*$//')
+CMD=$(echo "$CMD" | sed -E 's/[[:space:]]*2>&1.*$//; s/[[:space:]]*\|.*$//' | sed 's/[.)]*$//')
 echo "demo: $CMD ; files: $PLACED"
 timeout 300 bash -c "$CMD" > /tmp/confirm_$ID.clean.log 2>&1; RC_CLEAN=$?
 git apply "$SRC/patch.diff"
